@@ -4,568 +4,11 @@
 // -DSIM_INITIAL_CAP=1024 -DSIM_MAX_CAP=1024. The property is selected with --param prop=Cxx.
 //
 // Properties decided here: C03 C05 C06 C08 C09 C10 C16 C17 C18 C20 (see DESIGN.md section 4).
-#include <algorithm>
-#include <array>
-#include <atomic>
-#include <cstdint>
-#include <cstring>
-#include <deque>
-#include <map>
-#include <memory>
-#include <set>
-#include <sstream>
-#include <string>
-#include <vector>
-
-#include "../engine/sim.h"
-
-#include "quill/Backend.h"
-#include "quill/Frontend.h"
-#include "quill/LogMacros.h"
-#include "quill/Logger.h"
-#include "quill/sinks/FileSink.h"
-#include "quill/sinks/Sink.h"
-
-#ifndef SIM_QUEUE_TYPE
-  #define SIM_QUEUE_TYPE BoundedBlocking
-#endif
-#ifndef SIM_INITIAL_CAP
-  #define SIM_INITIAL_CAP 1024
-#endif
-#ifndef SIM_MAX_CAP
-  #define SIM_MAX_CAP SIM_INITIAL_CAP
-#endif
-
-using namespace verif;
-using verif::sim::Worker;
-using verif::sim::WState;
-
-struct SimFrontendOptions
-{
-  static constexpr quill::QueueType queue_type = quill::QueueType::SIM_QUEUE_TYPE;
-  static constexpr size_t initial_queue_capacity = SIM_INITIAL_CAP;
-  static constexpr uint32_t blocking_queue_retry_interval_ns = 800;
-  static constexpr size_t unbounded_queue_max_capacity = SIM_MAX_CAP;
-  static constexpr quill::HugePagesPolicy huge_pages_policy = quill::HugePagesPolicy::Never;
-};
-using SFrontend = quill::FrontendImpl<SimFrontendOptions>;
-using SLogger = quill::LoggerImpl<SimFrontendOptions>;
+#include "sim_oracles.h"
 
 namespace
 {
-constexpr bool kBounded = (SimFrontendOptions::queue_type == quill::QueueType::BoundedBlocking) ||
-  (SimFrontendOptions::queue_type == quill::QueueType::BoundedDropping);
-constexpr bool kDropping = (SimFrontendOptions::queue_type == quill::QueueType::BoundedDropping) ||
-  (SimFrontendOptions::queue_type == quill::QueueType::UnboundedDropping);
-constexpr size_t kCap = kBounded ? SIM_INITIAL_CAP : SIM_MAX_CAP; // the largest buffer a statement may have to fit
-constexpr size_t kInitCap = SIM_INITIAL_CAP;
-constexpr size_t kHeader = 8 + 3 * sizeof(uintptr_t);            // timestamp + metadata + logger + decoder
-constexpr size_t kStmtFixed = kHeader + 2 + 4 + 4;               // + uint16 worker + uint32 seq + string length field
-
-Params g_params;
-std::string g_prop = "C03";
-bool g_excl_f1 = false;   // sim.unpublished_reader_remainder_stall
-bool g_excl_f10 = false;  // sim.first_log_between_cache_refresh_and_ts_now
-bool g_excl_f11 = false;  // sim.drops_of_exited_thread_unreported
-bool g_excl_f2 = false;   // sim.nonstd_exception_from_formatter
-bool g_excl_f3 = false;   // sim.backtrace_index_not_reset
-bool g_excl_f9 = false;   // sim.invalid_context_counter_wraps_at_256
-
-// ------------------------------------------------------------------------------------------------------
-// journal and sinks
-// ------------------------------------------------------------------------------------------------------
-struct JEntry
-{
-  int sink;
-  char kind; // 'W' write_log, 'F' flush_sink, 'D' destroyed
-  std::string logger;
-  std::string tid;
-  uint64_t ts;
-  int level;
-  std::string msg;
-  std::string statement;
-};
-
-struct World;
-World* g_world = nullptr;
-
-struct ThrowPlan
-{
-  std::set<long> write_calls; // 1-based indices of write_log calls that throw
-  std::set<long> flush_calls;
-};
-
-class RecSink : public quill::Sink
-{
-public:
-  RecSink(int idx, std::optional<quill::PatternFormatterOptions> ov = std::nullopt) : quill::Sink(std::move(ov)), _idx(idx) {}
-  ~RecSink() override;
-  void write_log(quill::MacroMetadata const*, uint64_t ts, std::string_view tid, std::string_view, std::string const&,
-                 std::string_view logger, quill::LogLevel lvl, std::string_view, std::string_view,
-                 std::vector<std::pair<std::string, std::string>> const*, std::string_view msg, std::string_view stmt) override;
-  void flush_sink() override;
-  int _idx;
-  long writes{0}, flushes{0};
-  ThrowPlan plan;
-};
-
-// ------------------------------------------------------------------------------------------------------
-// model
-// ------------------------------------------------------------------------------------------------------
-enum class OpKind { None, Log, Flush, InitBt, FlushBt, RemoveBlocking, Other };
-
-struct Stmt
-{
-  int w{0};
-  uint32_t seq{0};
-  int logger{0};
-  int level{0};
-  uint32_t padlen{0};
-  bool call_done{false};
-  bool accepted{false};
-  bool threw{false};
-  bool backtrace{false};
-  uint64_t ts{0};
-  uint64_t enq_time{0};
-  size_t issue_idx{0};     // index in the global op counter
-  size_t done_idx{0};
-  size_t encoded{0};
-  bool stalled{false};
-  bool was_blocked{false};
-};
-
-struct FlushRec
-{
-  int w{0};
-  int logger{0};
-  size_t issue_idx{0};
-  size_t issue_journal_size{0};
-  bool returned{false};
-  bool refused_once{false};
-  std::vector<size_t> must_be_written; // stmt indices that must be written+flushed when it returns
-};
-
-struct WInfo
-{
-  Worker* w{nullptr};
-  bool alive{true};
-  bool has_logged{false};   // has a thread context
-  uint32_t next_seq{0};
-  OpKind pending{OpKind::None};
-  size_t pending_stmt{0};
-  size_t pending_flush{0};
-  // results written by the worker thread while it runs the op
-  bool res_accepted{false};
-  bool res_threw{false};
-  long drops_unreported{0};
-  long drops_total{0};
-  size_t last_capacity_seen{0};
-};
-
-struct LoggerInfo
-{
-  std::string name;
-  SLogger* ptr{nullptr};
-  std::vector<int> sinks;
-  int level{4}; // Info
-  bool valid{true};
-};
-
-struct World
-{
-  Choices* c{nullptr};
-  Report* r{nullptr};
-  quill::ManualBackendWorker* mbw{nullptr};
-  quill::BackendOptions bo;
-  uint64_t grace_ns{0};
-  std::deque<WInfo> workers; // deque: worker lambdas keep pointers to their WInfo
-  std::vector<LoggerInfo> loggers;
-  std::vector<std::shared_ptr<RecSink>> sinks;
-  std::vector<Stmt> stmts;
-  std::vector<FlushRec> flushes;
-  std::vector<JEntry> journal;
-  std::vector<std::string> notes; // error notifier
-  size_t op_counter{0};
-  // poll / burst state
-  bool in_poll{false};
-  int burst_budget{0};
-  bool idle_seen{false};       // Y5 reached in the current poll: queues and buffers were empty
-  long polls{0};
-  long yields[6]{0, 0, 0, 0, 0, 0};
-  long bursts_at[6]{0, 0, 0, 0, 0, 0};
-  bool draining{false};
-  // labels
-  bool lbl_exit_with_pending{false}, lbl_blocked{false}, lbl_stall{false}, lbl_first_log_in_y1{false};
-  long grows_seen{0};
-  std::string opslog;
-
-  void log_op(std::string const& s)
-  {
-    if (opslog.size() < 2400) { opslog += s; opslog += ' '; }
-  }
-};
-
-RecSink::~RecSink()
-{
-  if (g_world) g_world->journal.push_back(JEntry{_idx, 'D', {}, {}, 0, 0, {}, {}});
-}
-
-void RecSink::write_log(quill::MacroMetadata const*, uint64_t ts, std::string_view tid, std::string_view, std::string const&,
-                        std::string_view logger, quill::LogLevel lvl, std::string_view, std::string_view,
-                        std::vector<std::pair<std::string, std::string>> const*, std::string_view msg, std::string_view stmt)
-{
-  ++writes;
-  if (plan.write_calls.count(writes)) throw std::runtime_error("injected write_log failure sink " + std::to_string(_idx));
-  g_world->journal.push_back(JEntry{_idx, 'W', std::string{logger}, std::string{tid}, ts, static_cast<int>(lvl),
-                                    std::string{msg}, std::string{stmt}});
-}
-
-void RecSink::flush_sink()
-{
-  ++flushes;
-  if (plan.flush_calls.count(flushes)) throw std::runtime_error("injected flush_sink failure sink " + std::to_string(_idx));
-  // collapse runs of flushes (idle polls flush every time)
-  if (!g_world->journal.empty() && g_world->journal.back().kind == 'F' && g_world->journal.back().sink == _idx) return;
-  g_world->journal.push_back(JEntry{_idx, 'F', {}, {}, 0, 0, {}, {}});
-}
-
-// statement metadata: one per level, format "{}:{}:{}" = worker:seq:padding
-constexpr quill::MacroMetadata kMd[] = {
-  {"sim.cpp:1", "f", "{}:{}:{}", nullptr, quill::LogLevel::TraceL3, quill::MacroMetadata::Event::Log},
-  {"sim.cpp:2", "f", "{}:{}:{}", nullptr, quill::LogLevel::TraceL2, quill::MacroMetadata::Event::Log},
-  {"sim.cpp:3", "f", "{}:{}:{}", nullptr, quill::LogLevel::TraceL1, quill::MacroMetadata::Event::Log},
-  {"sim.cpp:4", "f", "{}:{}:{}", nullptr, quill::LogLevel::Debug, quill::MacroMetadata::Event::Log},
-  {"sim.cpp:5", "f", "{}:{}:{}", nullptr, quill::LogLevel::Info, quill::MacroMetadata::Event::Log},
-  {"sim.cpp:6", "f", "{}:{}:{}", nullptr, quill::LogLevel::Notice, quill::MacroMetadata::Event::Log},
-  {"sim.cpp:7", "f", "{}:{}:{}", nullptr, quill::LogLevel::Warning, quill::MacroMetadata::Event::Log},
-  {"sim.cpp:8", "f", "{}:{}:{}", nullptr, quill::LogLevel::Error, quill::MacroMetadata::Event::Log},
-  {"sim.cpp:9", "f", "{}:{}:{}", nullptr, quill::LogLevel::Critical, quill::MacroMetadata::Event::Log},
-  {"sim.cpp:10", "f", "{}:{}:{}", nullptr, quill::LogLevel::Backtrace, quill::MacroMetadata::Event::Log},
-};
-
-std::string make_pad(int w, uint32_t seq, uint32_t len)
-{
-  std::string p(len, 'a');
-  for (uint32_t k = 0; k < len; ++k) p[k] = static_cast<char>('a' + ((w * 7u + seq * 13u + k * 3u) % 26u));
-  return p;
-}
-
-bool parse_msg(std::string const& m, int& w, uint32_t& seq, std::string& pad)
-{
-  size_t a = m.find(':');
-  if (a == std::string::npos) return false;
-  size_t b = m.find(':', a + 1);
-  if (b == std::string::npos) return false;
-  char* e = nullptr;
-  long wl = std::strtol(m.c_str(), &e, 10);
-  if (e != m.c_str() + a) return false;
-  unsigned long sl = std::strtoul(m.c_str() + a + 1, &e, 10);
-  if (e != m.c_str() + b) return false;
-  w = static_cast<int>(wl);
-  seq = static_cast<uint32_t>(sl);
-  pad = m.substr(b + 1);
-  return true;
-}
-
-// ------------------------------------------------------------------------------------------------------
-// operations
-// ------------------------------------------------------------------------------------------------------
-void fail(World& W, std::string const& m) { W.r->fail(m); }
-
-int alive_count(World& W)
-{
-  int n = 0;
-  for (auto& x : W.workers) if (x.alive) ++n;
-  return n;
-}
-
-void finish_op(World& W, int wi);
-
-void after_state(World& W, int wi, WState st)
-{
-  WInfo& wi_ = W.workers[wi];
-  if (st == WState::Idle) { finish_op(W, wi); return; }
-  if (st == WState::Blocked)
-  {
-    W.lbl_blocked = true;
-    if (wi_.pending == OpKind::Log) W.stmts[wi_.pending_stmt].was_blocked = true;
-    if (wi_.pending == OpKind::Flush && wi_.w->sleeps_in_op > 0) { /* spinning on the flag or refused: cannot tell apart here */ }
-  }
-  if (st == WState::Stalled) W.lbl_stall = true;
-}
-
-// C06: evaluated at the instant flush_log() returned
-void check_flush_returned(World& W, FlushRec& f)
-{
-  for (size_t si : f.must_be_written)
-  {
-    Stmt const& s = W.stmts[si];
-    if (!s.accepted) continue;
-    for (int sk : W.loggers[s.logger].sinks)
-    {
-      long last_w = -1, last_f = -1;
-      for (size_t k = 0; k < W.journal.size(); ++k)
-      {
-        JEntry const& e = W.journal[k];
-        if (e.sink != sk) continue;
-        if (e.kind == 'F') last_f = static_cast<long>(k);
-        else if (e.kind == 'W')
-        {
-          int w;
-          uint32_t seq;
-          std::string pad;
-          if (parse_msg(e.msg, w, seq, pad) && w == s.w && seq == s.seq) last_w = static_cast<long>(k);
-        }
-      }
-      std::string who = (s.w == f.w) ? "its own earlier statement" : "statement of another thread whose call had completed before the flush was invoked";
-      if (last_w < 0)
-      {
-        fail(W, "flush_log() of worker " + std::to_string(f.w) + " returned but " + who + " " + std::to_string(s.w) + ":" +
-                  std::to_string(s.seq) + " was not written to sink " + std::to_string(sk));
-        return;
-      }
-      if (last_f < last_w)
-      {
-        fail(W, "flush_log() of worker " + std::to_string(f.w) + " returned but sink " + std::to_string(sk) +
-                  " was not flushed after " + who + " " + std::to_string(s.w) + ":" + std::to_string(s.seq));
-        return;
-      }
-    }
-  }
-}
-
-void finish_op(World& W, int wi)
-{
-  WInfo& x = W.workers[wi];
-  if (x.pending == OpKind::Log)
-  {
-    Stmt& s = W.stmts[x.pending_stmt];
-    s.call_done = true;
-    s.accepted = x.res_accepted;
-    s.threw = x.res_threw;
-    s.ts = x.w->first_realtime_in_op;
-    s.enq_time = sim::core().vclock;
-    s.done_idx = W.op_counter;
-    x.has_logged = true;
-    if (!s.accepted && !s.threw && !s.backtrace) { ++x.drops_unreported; ++x.drops_total; }
-  }
-  else if (x.pending == OpKind::Flush)
-  {
-    FlushRec& f = W.flushes[x.pending_flush];
-    f.returned = true;
-    x.has_logged = true;
-    if (g_prop == "C06" || g_prop == "C10") check_flush_returned(W, f);
-  }
-  x.pending = OpKind::None;
-}
-
-// choose a size class; returns pad length so that the encoded statement has the wanted size
-uint32_t draw_padlen(World& W, bool allow_never_fits)
-{
-  Choices& c = *W.c;
-  size_t total;
-  size_t band = (kCap * 5 + 99) / 100;
-  switch (c.weighted({6, 4, 3, 3, 2, 1}))
-  {
-  case 0: total = kStmtFixed + c.pick(33); break;                                   // small
-  case 1: total = kStmtFixed + c.pick(9); W.r->label("size_tiny"); break;           // tiny: below the publish batch
-  case 2: total = kInitCap / 8 + c.pick(static_cast<uint32_t>(kInitCap / 2)); break; // medium
-  case 3: total = kCap - c.pick(static_cast<uint32_t>((kCap * 6 + 99) / 100 + 1)); W.r->label("size_in_band_below_capacity"); break;
-  case 4: total = kCap; W.r->label("size_eq_capacity"); break;
-  default:
-    if (allow_never_fits) { total = kCap + 1 + c.pick(64); W.r->label("size_never_fits"); }
-    else total = kCap / 2 + c.pick(static_cast<uint32_t>(kCap / 4));
-    break;
-  }
-  if (total < kStmtFixed) total = kStmtFixed;
-  if (!allow_never_fits && total > kCap) total = kCap;
-  if (g_excl_f1 && total + band > kCap && total <= kCap)
-  {
-    // known finding F1: a request in the band (capacity - 5 %, capacity] may be refused for ever
-    W.r->count("excluded.sim.unpublished_reader_remainder_stall");
-    total = kCap - band;
-  }
-  return static_cast<uint32_t>(total - kStmtFixed);
-}
-
-int pick_logger(World& W)
-{
-  std::vector<int> v;
-  for (size_t k = 0; k < W.loggers.size(); ++k) if (W.loggers[k].valid) v.push_back(static_cast<int>(k));
-  if (v.empty()) return -1;
-  return v[W.c->pick(static_cast<uint32_t>(v.size()))];
-}
-
-// index of an alive worker chosen by the stream, or -1
-int pick_worker(World& W)
-{
-  std::vector<int> v;
-  for (size_t k = 0; k < W.workers.size(); ++k) if (W.workers[k].alive) v.push_back(static_cast<int>(k));
-  if (v.empty()) return -1;
-  return v[W.c->pick(static_cast<uint32_t>(v.size()))];
-}
-
-int op_start_thread(World& W)
-{
-  if (alive_count(W) >= 5 || W.workers.size() >= 40) return -1;
-  WInfo x;
-  x.w = sim::start_worker();
-  W.workers.push_back(x);
-  W.log_op("Start(w" + std::to_string(W.workers.size()) + ")");
-  return static_cast<int>(W.workers.size() - 1);
-}
-
-bool worker_busy(World& W, int wi)
-{
-  WState st = W.workers[wi].w->state;
-  return st == WState::Blocked || st == WState::Stalled;
-}
-
-void op_retry(World& W, int wi)
-{
-  WInfo& x = W.workers[wi];
-  if (!worker_busy(W, wi)) return;
-  W.log_op((x.w->state == WState::Stalled ? "Resume(w" : "Retry(w") + std::to_string(wi + 1) + ")");
-  WState st = sim::grant(x.w);
-  after_state(W, wi, st);
-}
-
-void op_log(World& W, int wi, bool in_burst, int ypoint)
-{
-  Choices& c = *W.c;
-  if (wi < 0) { wi = op_start_thread(W); if (wi < 0) return; }
-  if (worker_busy(W, wi)) { op_retry(W, wi); return; }
-  WInfo& x = W.workers[wi];
-  int li = pick_logger(W);
-  if (li < 0) return;
-  bool first_log = !x.has_logged;
-  if (in_burst && ypoint == 1 && first_log)
-  {
-    if (g_excl_f10)
-    {
-      // known finding F10: a thread's first log call between the cache refresh and the ts_now read
-      W.r->count("excluded.sim.first_log_between_cache_refresh_and_ts_now");
-      return;
-    }
-    W.lbl_first_log_in_y1 = true;
-  }
-  Stmt s;
-  s.w = wi + 1;
-  s.seq = x.next_seq++;
-  s.logger = li;
-  s.level = 4 + static_cast<int>(c.pick(5)); // Info..Critical: all pass the default logger level
-  bool never_fits_ok = kDropping && (g_prop == "C08");
-  s.padlen = draw_padlen(W, never_fits_ok);
-  s.encoded = kStmtFixed + s.padlen;
-  s.issue_idx = W.op_counter;
-  bool stall = false;
-  if (g_prop == "C05" || g_prop == "C06") stall = c.pick(6) == 5;
-  s.stalled = stall;
-  W.stmts.push_back(s);
-  size_t si = W.stmts.size() - 1;
-  x.pending = OpKind::Log;
-  x.pending_stmt = si;
-  x.res_accepted = false;
-  x.res_threw = false;
-  SLogger* lg = W.loggers[li].ptr;
-  quill::MacroMetadata const* md = &kMd[s.level];
-  std::string pad = make_pad(s.w, s.seq, s.padlen);
-  uint16_t wid = static_cast<uint16_t>(s.w);
-  uint32_t seq = s.seq;
-  WInfo* xp = &x;
-  W.log_op("Log(w" + std::to_string(s.w) + "#" + std::to_string(s.seq) + ",L" + std::to_string(li) + "," +
-           std::to_string(s.encoded) + "B" + (stall ? ",stall" : "") + (in_burst ? ",@Y" + std::to_string(ypoint) : "") + ")");
-  WState st = sim::run_on(
-    x.w,
-    [lg, md, wid, seq, pad, xp]()
-    {
-      try { xp->res_accepted = lg->template log_statement<false, false>(quill::LogLevel::None, md, wid, seq, pad); }
-      catch (quill::QuillError const&) { xp->res_threw = true; }
-    },
-    stall);
-  after_state(W, wi, st);
-}
-
-void op_flush(World& W, int wi, bool in_burst, int ypoint)
-{
-  if (wi < 0) { wi = op_start_thread(W); if (wi < 0) return; }
-  if (worker_busy(W, wi)) { op_retry(W, wi); return; }
-  WInfo& x = W.workers[wi];
-  int li = pick_logger(W);
-  if (li < 0) return;
-  if (in_burst && ypoint == 1 && !x.has_logged && g_excl_f10) { W.r->count("excluded.sim.first_log_between_cache_refresh_and_ts_now"); return; }
-  FlushRec f;
-  f.w = wi + 1;
-  f.logger = li;
-  f.issue_idx = W.op_counter;
-  f.issue_journal_size = W.journal.size();
-  // what must be on the sinks when it returns: every earlier statement of this worker; with ordering enabled also every
-  // statement of any other worker whose call completed before now
-  for (size_t k = 0; k < W.stmts.size(); ++k)
-  {
-    Stmt const& s = W.stmts[k];
-    if (!s.call_done || !s.accepted || s.backtrace) continue;
-    if (s.w == f.w || W.grace_ns > 0) f.must_be_written.push_back(k);
-  }
-  W.flushes.push_back(f);
-  x.pending = OpKind::Flush;
-  x.pending_flush = W.flushes.size() - 1;
-  SLogger* lg = W.loggers[li].ptr;
-  W.log_op("Flush(w" + std::to_string(wi + 1) + ",L" + std::to_string(li) + (in_burst ? ",@Y" + std::to_string(ypoint) : "") + ")");
-  WState st = sim::run_on(x.w, [lg]() { lg->flush_log(100); });
-  after_state(W, wi, st);
-}
-
-void op_exit_thread(World& W, int wi)
-{
-  if (wi < 0) return;
-  if (worker_busy(W, wi)) { op_retry(W, wi); return; }
-  WInfo& x = W.workers[wi];
-  if (!x.alive) return;
-  if (g_excl_f11 && x.drops_unreported > 0)
-  {
-    // known finding F11: drops of a thread that exits before they were reported
-    W.r->count("excluded.sim.drops_of_exited_thread_unreported");
-    return;
-  }
-  // does it still have unwritten statements?
-  for (auto const& s : W.stmts)
-  {
-    if (s.w == wi + 1 && s.accepted)
-    {
-      bool seen = false;
-      for (auto const& e : W.journal)
-      {
-        int w;
-        uint32_t q;
-        std::string p;
-        if (e.kind == 'W' && parse_msg(e.msg, w, q, p) && w == s.w && q == s.seq) { seen = true; break; }
-      }
-      if (!seen) { W.lbl_exit_with_pending = true; break; }
-    }
-  }
-  W.log_op("Exit(w" + std::to_string(wi + 1) + ")");
-  sim::exit_worker(x.w);
-  x.alive = false;
-}
-
-void op_tick(World& W)
-{
-  Choices& c = *W.c;
-  uint64_t g = W.grace_ns ? W.grace_ns : 1000;
-  uint64_t dt;
-  switch (c.pick(6))
-  {
-  case 0: dt = 1; break;
-  case 1: dt = g / 2; break;
-  case 2: dt = g - 1; break;
-  case 3: dt = g; break;
-  case 4: dt = g + 1; break;
-  default: dt = 10 * g; break;
-  }
-  sim::core().vclock += dt;
-  W.log_op("Tick(" + std::to_string(dt) + ")");
-}
+void op_first_log_then_known(World& W, int point);
 
 void burst_ops(World& W, int point)
 {
@@ -575,23 +18,81 @@ void burst_ops(World& W, int point)
   if (c.pick(5) != 4) return;
   unsigned n = 1 + c.pick(3);
   ++W.bursts_at[point];
+  W.cur_point = point;
   for (unsigned k = 0; k < n && W.burst_budget > 0 && !W.r->failed; ++k)
   {
     --W.burst_budget;
     ++W.op_counter;
-    switch (c.weighted({6, 3, 2, 2, 2, 2}))
+    if (is_prop("C18"))
+    {
+      switch (c.weighted({4, 3, 2, 1}))
+      {
+      case 0: op_bt_log(W, pick_worker(W), true, point); break;
+      case 1: op_bt_plain(W, pick_worker(W), true, point); break;
+      case 2: op_tick(W); break;
+      default: op_bt_flush(W, pick_worker(W)); break;
+      }
+      continue;
+    }
+    if (is_prop("C17"))
+    {
+      switch (c.weighted({5, 2, 2, 2, 1, 1}))
+      {
+      case 0: op_log(W, pick_worker(W), true, point); break;
+      case 1: op_remove_logger(W, pick_worker(W), false); break;
+      case 2: op_exit_thread(W, pick_worker(W)); break;
+      case 3: op_drop_sink_ref(W); break;
+      case 4: op_remove_logger(W, pick_worker(W), true); break;
+      default: { int wi = pick_worker(W); if (wi >= 0) op_retry(W, wi); break; }
+      }
+      continue;
+    }
+    if (is_prop("C20"))
+    {
+      switch (c.weighted({5, 3, 2, 1, 1}))
+      {
+      case 0: op_log(W, pick_worker(W), true, point); break;
+      case 1: op_exit_thread(W, pick_worker(W)); break;
+      case 2: { int nw = op_start_thread(W); if (nw >= 0) op_log(W, nw, true, point); break; }
+      case 3: op_shrink(W, pick_worker(W)); break;
+      default: op_thread_batch(W); break;
+      }
+      continue;
+    }
+    switch (c.weighted({6, 3, 2, 2, 2, 2, (is_prop("C05") || is_prop("C06")) ? 3u : 0u, is_prop("C16") ? 3u : 0u}))
     {
     case 0: op_log(W, pick_worker(W), true, point); break;
     case 1: op_tick(W); break;
     case 2:
-      if (g_prop == "C06" || g_prop == "C08" || g_prop == "C10" || g_prop == "C03") op_flush(W, pick_worker(W), true, point);
-      else op_log(W, pick_worker(W), true, point);
+      if (is_prop("C05")) op_log(W, pick_worker(W), true, point);
+      else op_flush(W, pick_worker(W), true, point);
       break;
     case 3: { int nw = op_start_thread(W); if (nw >= 0) op_log(W, nw, true, point); break; }
     case 4: op_exit_thread(W, pick_worker(W)); break;
-    default: { int wi = pick_worker(W); if (wi >= 0) op_retry(W, wi); break; }
+    case 5: { int wi = pick_worker(W); if (wi >= 0) op_retry(W, wi); break; }
+    case 6: op_first_log_then_known(W, point); break;
+    default: op_set_level(W, pick_worker(W)); break;
     }
   }
+  W.cur_point = 0;
+}
+
+// generator aimed at the "first log of a thread between cache refresh and pass start" window: a NEW thread logs
+// for the first time, time passes, a KNOWN thread logs or flushes, time passes (so both are older than the grace period)
+void op_first_log_then_known(World& W, int point)
+{
+  int known = -1;
+  for (size_t k = 0; k < W.workers.size(); ++k)
+    if (W.workers[k].alive && W.workers[k].has_logged && !worker_busy(W, static_cast<int>(k))) { known = static_cast<int>(k); break; }
+  if (known < 0) return;
+  int nw = op_start_thread(W);
+  if (nw < 0) return;
+  op_log(W, nw, true, point, -1, -1, true);
+  sim::core().vclock += W.grace_ns + 1 + W.c->pick(3);
+  W.log_op("Tick(g+)");
+  if (W.c->pick(2) == 1 || is_prop("C06")) op_flush(W, known, true, point); else op_log(W, known, true, point, -1, -1, true);
+  sim::core().vclock += W.grace_ns + 1 + W.c->pick(3);
+  W.log_op("Tick(g+)");
 }
 
 void sim_yield(int point)
@@ -599,7 +100,7 @@ void sim_yield(int point)
   World* W = g_world;
   if (!W || !W->in_poll) return;
   if (point >= 1 && point <= 5) ++W->yields[point];
-  if (point == 5) W->idle_seen = true;
+  if (point == 5) { W->idle_seen = true; W->exited_since_idle = 0; }
   if (W->draining) return;
   burst_ops(*W, point);
 }
@@ -616,15 +117,8 @@ void op_poll(World& W, bool bursts)
 }
 
 // ------------------------------------------------------------------------------------------------------
-// end of case: drain, then the property's oracle
+// drain: grant retries, advance time beyond the grace period, poll, until everything is idle
 // ------------------------------------------------------------------------------------------------------
-long count_writes(World& W)
-{
-  long n = 0;
-  for (auto const& e : W.journal) if (e.kind == 'W') ++n;
-  return n;
-}
-
 bool drain(World& W)
 {
   W.draining = true;
@@ -642,6 +136,7 @@ bool drain(World& W)
     }
     sim::core().vclock += W.grace_ns + 1;
     long before = count_writes(W);
+    size_t notes_before = W.notes.size();
     op_poll(W, false);
     bool progress = count_writes(W) != before;
     bool any_busy = false;
@@ -666,135 +161,287 @@ bool drain(World& W)
       W.draining = false;
       return false;
     }
+    // a backend that keeps reporting errors without writing anything never reaches its idle branch (C10 / F2)
+    if (!W.idle_seen && !progress && W.notes.size() > notes_before && round > 30 + 2 * W.stmts.size())
+    {
+      fail(W, "LIVELOCK: the backend reports an error on every poll (" + std::to_string(W.notes.size()) + " notifications, last: " +
+                esc(W.notes.back(), 80) + ") and neither writes anything nor becomes idle: a record is re-read for ever");
+      W.draining = false;
+      return false;
+    }
   }
   W.draining = false;
   if (!W.r->failed) { W.r->inconclusive = true; W.r->message = "drain budget exceeded"; }
   return false;
 }
 
-void oracle_delivery(World& W)
+// C09: after the backend is idle, a fitting statement must be accepted (dropping) / must not stall (blocking)
+void op_drain_then_log(World& W)
 {
-  // per sink: exactly once, per-thread order, integrity, identity
-  size_t nsinks = W.sinks.size();
-  std::vector<std::map<std::pair<int, uint32_t>, int>> seen(nsinks);
-  std::vector<std::map<int, long>> last_seq(nsinks);
-  std::map<std::pair<int, uint32_t>, size_t> index;
-  for (size_t k = 0; k < W.stmts.size(); ++k) index[{W.stmts[k].w, W.stmts[k].seq}] = k;
-  uint64_t last_ts = 0;
-  bool precondition = true;
-  for (auto const& s : W.stmts)
+  if (W.in_poll) return;
+  W.log_op("DrainIdle");
+  if (!drain(W)) return;
+  int wi = pick_worker(W);
+  if (wi < 0) wi = op_start_thread(W);
+  if (wi < 0) return;
+  size_t before = W.stmts.size();
+  op_log(W, wi, false, 0);
+  if (kDropping && W.stmts.size() > before)
   {
-    if (s.accepted && W.grace_ns > 0 && s.enq_time - s.ts > W.grace_ns) precondition = false;
-  }
-  if (!precondition) W.r->label("precondition_violated_some_enqueue_later_than_grace");
-  for (auto const& e : W.journal)
-  {
-    if (e.kind != 'W') continue;
-    int w;
-    uint32_t seq;
-    std::string pad;
-    if (!parse_msg(e.msg, w, seq, pad)) { fail(W, "sink " + std::to_string(e.sink) + " received an unparsable message \"" + esc(e.msg, 80) + "\""); return; }
-    auto it = index.find({w, seq});
-    if (it == index.end()) { fail(W, "sink " + std::to_string(e.sink) + " received statement " + std::to_string(w) + ":" + std::to_string(seq) + " that was never issued"); return; }
-    Stmt const& s = W.stmts[it->second];
-    std::string id = std::to_string(w) + ":" + std::to_string(seq);
-    if (!s.accepted) { fail(W, "statement " + id + " was written although its log call returned false / threw (reported dropped AND delivered)"); return; }
-    LoggerInfo const& L = W.loggers[s.logger];
-    if (std::find(L.sinks.begin(), L.sinks.end(), e.sink) == L.sinks.end()) { fail(W, "statement " + id + " written to sink " + std::to_string(e.sink) + " which its logger does not own"); return; }
-    if (++seen[e.sink][{w, seq}] > 1) { fail(W, "statement " + id + " written twice to sink " + std::to_string(e.sink)); return; }
-    auto ls = last_seq[e.sink].find(w);
-    if (ls != last_seq[e.sink].end() && ls->second >= static_cast<long>(seq))
+    Stmt const& s = W.stmts.back();
+    if (s.call_done && !s.accepted && !s.threw && s.encoded <= kCap)
     {
-      fail(W, "sink " + std::to_string(e.sink) + ": statement " + id + " written after " + std::to_string(w) + ":" + std::to_string(ls->second) + " (thread order violated)");
-      return;
+      fail(W, "dropping queue rejected a fitting statement of " + std::to_string(s.encoded) + " B (capacity " + std::to_string(kCap) +
+                ") although the thread's queue is empty and the backend is idle");
     }
-    last_seq[e.sink][w] = seq;
-    if (pad != make_pad(w, seq, s.padlen)) { fail(W, "statement " + id + " payload corrupted (" + std::to_string(pad.size()) + " B, expected " + std::to_string(s.padlen) + " B)"); return; }
-    if (e.logger != L.name) { fail(W, "statement " + id + " carries logger name " + e.logger + ", expected " + L.name); return; }
-    if (e.tid != std::to_string(W.workers[w - 1].w->tid)) { fail(W, "statement " + id + " carries thread id " + e.tid + ", expected " + std::to_string(W.workers[w - 1].w->tid)); return; }
-    if (e.level != s.level) { fail(W, "statement " + id + " carries level " + std::to_string(e.level) + ", expected " + std::to_string(s.level)); return; }
-    if (e.ts != s.ts) { fail(W, "statement " + id + " carries timestamp " + std::to_string(e.ts) + ", but its log call read " + std::to_string(s.ts)); return; }
-    if (g_prop == "C05" && precondition && W.grace_ns > 0)
+  }
+}
+
+void build_world(World& W, Choices& c, Report& r)
+{
+  // ---- backend options ----
+  quill::BackendOptions bo;
+  bool tiny_buffers = is_prop("C16") || is_prop("C18");
+  bo.transit_event_buffer_initial_capacity = tiny_buffers ? (1u << c.pick(2)) : (1u << c.pick(4)); // 1..2 / 1..8
+  bo.transit_events_soft_limit = size_t{1} << c.pick(5);              // 1..16
+  {
+    unsigned soft_bits = 0;
+    while ((size_t{1} << soft_bits) < bo.transit_events_soft_limit) ++soft_bits;
+    bo.transit_events_hard_limit = size_t{1} << (soft_bits + c.pick(6 - soft_bits)); // soft..32
+  }
+  switch (c.pick(4))
+  {
+  case 0: bo.log_timestamp_ordering_grace_period = std::chrono::microseconds{1}; break;
+  case 1: bo.log_timestamp_ordering_grace_period = std::chrono::microseconds{5}; break;
+  case 2: bo.log_timestamp_ordering_grace_period = std::chrono::microseconds{50}; break;
+  default: bo.log_timestamp_ordering_grace_period = std::chrono::microseconds{(is_prop("C05") || is_prop("C18")) ? 1 : 0}; break;
+  }
+  bo.sink_min_flush_interval = std::chrono::milliseconds{c.pick(3) == 2 ? 200 : 0};
+  bo.check_backend_singleton_instance = false;
+  bo.error_notifier = [](std::string const& m) { g_world->notes.push_back(m); };
+  W.bo = bo;
+  W.grace_ns = static_cast<uint64_t>(bo.log_timestamp_ordering_grace_period.count()) * 1000ull;
+
+  // ---- sinks and loggers ----
+  if (is_prop("C17"))
+  {
+    unsigned n0 = 1 + c.pick(2);
+    for (unsigned k = 0; k < n0; ++k) make_sink(W);
+    op_create_logger(W);
+    if (c.pick(2) == 1) op_create_logger(W);
+  }
+  else
+  {
+    unsigned nsinks = 1 + c.pick(3);
+    for (unsigned k = 0; k < nsinks; ++k)
     {
-      if (e.ts < last_ts)
+      bool ov = is_prop("C16") && k == 1;
+      int idx = make_sink(W, ov ? std::optional<quill::PatternFormatterOptions>{quill::PatternFormatterOptions{
+                                    "OV|%(log_level_short_code)|%(message)", "%H:%M:%S.%Qns", quill::Timezone::GmtTime, false}}
+                                : std::nullopt);
+      SinkInfo& S = W.sinks[idx];
+      if (is_prop("C16"))
       {
-        fail(W, "timestamp order violated: statement " + id + " (ts " + std::to_string(e.ts) + ") written after a statement with ts " +
-                  std::to_string(last_ts) + " although every statement was enqueued within the grace period");
-        return;
+        S.level_filter = static_cast<int>(c.pick(10));
+        if (S.level_filter == 9) S.level_filter = 0;
+        S.raw->set_log_level_filter(static_cast<quill::LogLevel>(S.level_filter));
+        unsigned nf = c.pick(3);
+        for (unsigned f = 0; f < nf; ++f)
+        {
+          uint32_t salt = 1 + c.pick(1000);
+          S.filter_salts.push_back(salt);
+          S.raw->add_filter(std::make_unique<FnFilter>("f" + std::to_string(f), salt));
+        }
+      }
+      if (is_prop("C10"))
+      {
+        // throw plan: the k-th write_log / flush_sink call throws a std::exception-derived error
+        unsigned nt = c.pick(4);
+        for (unsigned t = 0; t < nt; ++t)
+        {
+          if (c.pick(3) == 2) S.raw->plan.flush_calls.insert(1 + c.pick(30));
+          else S.raw->plan.write_calls.insert(1 + c.pick(20));
+        }
       }
     }
-    if (e.ts > last_ts) last_ts = e.ts;
-  }
-  for (auto const& s : W.stmts)
-  {
-    if (!s.accepted) continue;
-    for (int sk : W.loggers[s.logger].sinks)
+    unsigned nloggers = 1 + c.pick(3);
+    for (unsigned k = 0; k < nloggers; ++k)
     {
-      if (!seen[sk].count({s.w, s.seq}))
+      LoggerInfo L;
+      L.name = "lg" + std::to_string(k);
+      unsigned mask = 1 + c.pick((1u << nsinks) - 1);
+      std::vector<std::shared_ptr<quill::Sink>> sv;
+      for (unsigned b = 0; b < nsinks; ++b) if (mask & (1u << b)) { L.sinks.push_back(static_cast<int>(b)); sv.push_back(W.sinks[b].user_ref); }
+      char const* pat = is_prop("C16") ? "%(log_level)|%(log_level_short_code)|%(message)" : "%(message)";
+      L.ptr = SFrontend::create_or_get_logger(L.name, std::move(sv),
+                                              quill::PatternFormatterOptions{pat, "%H:%M:%S.%Qns", quill::Timezone::GmtTime, false},
+                                              quill::ClockSourceType::System);
+      if (is_prop("C16"))
       {
-        fail(W, "statement " + std::to_string(s.w) + ":" + std::to_string(s.seq) + " (" + std::to_string(s.encoded) +
-                  " B) accepted by its log call but never written to sink " + std::to_string(sk) + " (lost)");
-        return;
+        L.level = static_cast<int>(c.pick(10));
+        if (L.level == 9) L.level = 10;
+        L.ptr->set_log_level(static_cast<quill::LogLevel>(L.level));
       }
+      W.loggers.push_back(L);
     }
+  }
+  std::ostringstream cfg;
+  cfg << "prop=" << g_prop << " queue=" << static_cast<int>(SimFrontendOptions::queue_type) << " cap=" << kInitCap << "/" << kCap
+      << " tbuf=" << bo.transit_event_buffer_initial_capacity << " soft=" << bo.transit_events_soft_limit
+      << " hard=" << bo.transit_events_hard_limit << " grace_us=" << bo.log_timestamp_ordering_grace_period.count()
+      << " flush_ms=" << bo.sink_min_flush_interval.count() << " sinks=" << W.sinks.size() << " loggers=";
+  for (auto const& L : W.loggers) { cfg << "["; for (int s : L.sinks) cfg << s; cfg << "]"; if (is_prop("C16")) cfg << "@" << kLevelCodes[L.level]; }
+  if (is_prop("C16"))
+  {
+    cfg << " sinkfilters=";
+    for (auto const& S : W.sinks) cfg << kLevelCodes[S.level_filter] << "+" << S.filter_salts.size() << (S.has_override ? "ov " : " ");
+  }
+  if (is_prop("C10"))
+  {
+    cfg << " throwplans=";
+    for (auto const& S : W.sinks) { cfg << "w{"; for (long k : S.raw->plan.write_calls) cfg << k << ","; cfg << "}f{"; for (long k : S.raw->plan.flush_calls) cfg << k << ","; cfg << "} "; }
+  }
+  r.line(cfg.str());
+}
+
+void top_level_op(World& W, Choices& c)
+{
+  if (is_prop("C18"))
+  {
+    switch (c.weighted({4, 6, 4, 3, 2, 2, 1}))
+    {
+    case 0: op_poll(W, true); break;
+    case 1: op_bt_log(W, pick_worker(W), false, 0); break;
+    case 2: op_bt_plain(W, pick_worker(W), false, 0); break;
+    case 3: op_bt_flush(W, pick_worker(W)); break;
+    case 4: { int wi = pick_worker(W); if (wi < 0) wi = op_start_thread(W); if (wi >= 0) op_bt_init(W, wi); break; }
+    case 5: if (alive_count(W) < 3) op_start_thread(W); break;
+    default: op_tick(W); break;
+    }
+    return;
+  }
+  if (is_prop("C17"))
+  {
+    switch (c.weighted({5, 8, 3, 2, 2, 2, 2, 1, 1}))
+    {
+    case 0: op_poll(W, true); break;
+    case 1: op_log(W, pick_worker(W), false, 0); break;
+    case 2: op_create_logger(W); break;
+    case 3: op_remove_logger(W, pick_worker(W), false); break;
+    case 4: op_remove_logger(W, pick_worker(W), true); break;
+    case 5: op_drop_sink_ref(W); break;
+    case 6: op_start_thread(W); break;
+    case 7: op_exit_thread(W, pick_worker(W)); break;
+    default: op_flush(W, pick_worker(W), false, 0); break;
+    }
+    return;
+  }
+  if (is_prop("C20"))
+  {
+    switch (c.weighted({5, 6, 2, 3, 2, 2, 1}))
+    {
+    case 0: op_poll(W, true); break;
+    case 1: op_log(W, pick_worker(W), false, 0); break;
+    case 2: op_start_thread(W); break;
+    case 3: op_exit_thread(W, pick_worker(W)); break;
+    case 4: op_thread_batch(W); break;
+    case 5: op_shrink(W, pick_worker(W)); break;
+    default: op_tick(W); break;
+    }
+    return;
+  }
+  switch (c.weighted({5, 8, 2, 2, 2, 3, 1, is_prop("C09") ? 2u : 0u, is_prop("C16") ? 3u : 0u}))
+  {
+  case 0: op_poll(W, true); break;
+  case 1: op_log(W, pick_worker(W), false, 0); break;
+  case 2: op_start_thread(W); break;
+  case 3: op_tick(W); break;
+  case 4: op_exit_thread(W, pick_worker(W)); break;
+  case 5:
+    if (is_prop("C05")) op_log(W, pick_worker(W), false, 0);
+    else op_flush(W, pick_worker(W), false, 0);
+    break;
+  case 6: { int wi = pick_worker(W); if (wi >= 0) op_retry(W, wi); break; }
+  case 7: op_drain_then_log(W); break;
+  default: op_set_level(W, pick_worker(W)); break;
   }
 }
 
-void oracle_drops(World& W)
+void classify(World& W, Report& r)
 {
-  if (!kDropping) return;
-  long attempted = 0, accepted = 0, dropped = 0, threw = 0;
+  r.line("ops: " + W.opslog);
+  {
+    std::ostringstream o;
+    o << "stmts=" << W.stmts.size() << " flushes=" << W.flushes.size() << " writes=" << count_writes(W) << " polls=" << W.polls
+      << " yields=" << W.yields[1] << "/" << W.yields[2] << "/" << W.yields[3] << "/" << W.yields[4] << "/" << W.yields[5]
+      << " bursts=" << W.bursts_at[1] << "/" << W.bursts_at[2] << "/" << W.bursts_at[3] << "/" << W.bursts_at[4] << "/" << W.bursts_at[5]
+      << " notes=" << W.notes.size() << " threads=" << W.workers.size();
+    r.line(o.str());
+  }
+  std::set<int> logged_threads;
+  long drops = 0, delivered_after_drop = 0, faulty = 0, later_after_fault = 0;
+  std::map<int, bool> dropped_before, fault_before;
+  bool dyn = false, stat = false;
   for (auto const& s : W.stmts)
   {
-    if (!s.call_done) continue;
-    ++attempted;
-    if (s.threw) ++threw; else if (s.accepted) ++accepted; else ++dropped;
+    if (s.call_done) logged_threads.insert(s.w);
+    bool macro = s.kind == SKind::MacroStatic || s.kind == SKind::MacroDynamic;
+    if (s.call_done && !s.accepted && !s.threw && !macro) { ++drops; dropped_before[s.w] = true; }
+    if (s.accepted && dropped_before[s.w]) ++delivered_after_drop;
+    if (s.faulty && s.accepted) { ++faulty; fault_before[s.w] = true; }
+    else if (s.accepted && fault_before[s.w]) ++later_after_fault;
+    if (s.kind == SKind::MacroDynamic && s.accepted) dyn = true;
+    if (s.kind == SKind::MacroStatic && s.accepted) stat = true;
   }
-  if (accepted + dropped + threw != attempted) { fail(W, "delivered + discarded + thrown != attempted"); return; }
-  if (kBounded)
+  for (int p = 1; p <= 5; ++p) if (W.bursts_at[p]) r.label("burst_at_Y" + std::to_string(p));
+  if (W.lbl_exit_with_pending) r.label("thread_exited_with_unwritten_statements");
+  if (W.lbl_blocked) r.label("worker_blocked_at_least_once");
+  if (W.lbl_stall) r.label("stall_in_clock_read");
+  if (W.lbl_first_log_in_y1) r.label("first_log_of_a_thread_inside_Y1");
+  if (W.lbl_removal_with_queued) r.label("removal_with_statements_queued");
+  if (W.lbl_recreated) r.label("logger_name_recreated");
+  for (auto const& n : W.notes)
   {
-    long reported = 0;
-    for (auto const& n : W.notes)
+    if (n.find("Allocated a new SPSC queue") != std::string::npos) r.label("queue_grew");
+    if (n.find("Dropped") != std::string::npos) r.label("drops_reported");
+  }
+  if (drops) r.label("statement_dropped");
+  if (faulty) r.label("unformattable_statement");
+  bool sink_threw = false;
+  for (auto const& e : W.journal) if (e.kind == 'X') sink_threw = true;
+  if (sink_threw) r.label("sink_write_threw");
+  bool flush_with_others = false;
+  for (auto const& f : W.flushes) for (size_t si : f.must_be_written) if (W.stmts[si].w != f.w) flush_with_others = true;
+  if (flush_with_others) r.label("flush_with_other_threads_statements");
+  bool sinks_disagree = false;
+  if (is_prop("C16"))
+  {
+    for (auto const& s : W.stmts)
     {
-      size_t p = n.find("Dropped ");
-      if (p == std::string::npos) continue;
-      reported += std::strtol(n.c_str() + p + 8, nullptr, 10);
+      if (!s.accepted) continue;
+      int yes = 0, no = 0;
+      for (int sk : W.loggers[s.logger].sinks) { if (sink_accepts(W, sk, s, stmt_message(s))) ++yes; else ++no; }
+      if (yes && no) sinks_disagree = true;
     }
-    if (reported != dropped)
-    {
-      fail(W, "error notifier reported " + std::to_string(reported) + " dropped messages in total, but " + std::to_string(dropped) +
-                " log calls returned false");
-      return;
-    }
+    if (sinks_disagree) r.label("sinks_disagree_on_a_statement");
+    if (dyn && stat) r.label("dynamic_and_static_statements");
   }
-}
-
-void oracle_flushes(World& W)
-{
-  for (auto const& f : W.flushes)
-  {
-    if (!f.returned) { fail(W, "flush_log() of worker " + std::to_string(f.w) + " never returned although the backend kept running"); return; }
-  }
-}
-
-void oracle_contexts(World& W)
-{
-  // after the drain (+ idle polls) the backend retains exactly the contexts of live threads that have logged
-  size_t expect = 0;
-  for (auto const& x : W.workers) if (x.alive && x.has_logged) ++expect;
-  size_t got = 0;
-  quill::detail::ThreadContextManager::instance().for_each_thread_context([&got](quill::detail::ThreadContext*) { ++got; });
-  if (got != expect)
-  {
-    fail(W, "after the backend drained, " + std::to_string(got) + " thread contexts are retained but " + std::to_string(expect) +
-              " live threads have logged");
-  }
+  bool bt_mix = std::find(r.labels.begin(), r.labels.end(), "bt_wrapped_and_partial_cycles") != r.labels.end();
+  if (is_prop("C08")) r.nontrivial = drops >= 1 && delivered_after_drop >= 1;
+  else if (is_prop("C06")) r.nontrivial = flush_with_others && logged_threads.size() >= 2;
+  else if (is_prop("C09")) r.nontrivial = W.lbl_blocked || drops > 0;
+  else if (is_prop("C10")) r.nontrivial = (faulty >= 1 || sink_threw) && later_after_fault >= 1 && !W.flushes.empty();
+  else if (is_prop("C16")) r.nontrivial = dyn && stat && sinks_disagree;
+  else if (is_prop("C17")) r.nontrivial = W.lbl_removal_with_queued && W.lbl_recreated;
+  else if (is_prop("C18")) r.nontrivial = bt_mix;
+  else if (is_prop("C20")) r.nontrivial = W.lbl_exit_with_pending || W.max_exited_between_idles >= 64 || W.lbl_shrink_between;
+  else r.nontrivial = logged_threads.size() >= 2 && (W.lbl_exit_with_pending || W.lbl_blocked || W.bursts_at[2] || W.bursts_at[3] || W.bursts_at[4]);
 }
 } // namespace
 
 namespace verif
 {
-HarnessInfo harness_info() { return {"sim", true, 900, 20000}; }
+HarnessInfo harness_info() { return {"sim", true, 900, 30000}; }
 
 void harness_init(Params const& p)
 {
@@ -816,82 +463,22 @@ void run_case(Choices& c, Report& r)
   W.r = &r;
   sim::g_active = true;
 
-  // ---- backend options ----
-  quill::BackendOptions bo;
-  bo.transit_event_buffer_initial_capacity = 1u << c.pick(4);         // 1..8
-  bo.transit_events_soft_limit = size_t{1} << c.pick(5);              // 1..16
-  {
-    unsigned soft_bits = 0;
-    while ((size_t{1} << soft_bits) < bo.transit_events_soft_limit) ++soft_bits;
-    bo.transit_events_hard_limit = size_t{1} << (soft_bits + c.pick(6 - soft_bits)); // soft..32
-  }
-  switch (c.pick(4))
-  {
-  case 0: bo.log_timestamp_ordering_grace_period = std::chrono::microseconds{1}; break;
-  case 1: bo.log_timestamp_ordering_grace_period = std::chrono::microseconds{5}; break;
-  case 2: bo.log_timestamp_ordering_grace_period = std::chrono::microseconds{50}; break;
-  default: bo.log_timestamp_ordering_grace_period = std::chrono::microseconds{(g_prop == "C05") ? 1 : 0}; break;
-  }
-  bo.sink_min_flush_interval = std::chrono::milliseconds{c.pick(3) == 2 ? 200 : 0};
-  bo.check_backend_singleton_instance = false;
-  bo.error_notifier = [](std::string const& m) { g_world->notes.push_back(m); };
-  W.bo = bo;
-  W.grace_ns = static_cast<uint64_t>(bo.log_timestamp_ordering_grace_period.count()) * 1000ull;
-
-  // ---- sinks and loggers ----
-  unsigned nsinks = 1 + c.pick(3);
-  for (unsigned k = 0; k < nsinks; ++k) W.sinks.push_back(std::make_shared<RecSink>(static_cast<int>(k)));
-  unsigned nloggers = 1 + c.pick(3);
-  for (unsigned k = 0; k < nloggers; ++k)
-  {
-    LoggerInfo L;
-    L.name = "lg" + std::to_string(k);
-    // any non-empty subset of sinks, in index order
-    unsigned mask = 1 + c.pick((1u << nsinks) - 1);
-    std::vector<std::shared_ptr<quill::Sink>> sv;
-    for (unsigned b = 0; b < nsinks; ++b) if (mask & (1u << b)) { L.sinks.push_back(static_cast<int>(b)); sv.push_back(W.sinks[b]); }
-    L.ptr = SFrontend::create_or_get_logger(L.name, std::move(sv),
-                                            quill::PatternFormatterOptions{"%(message)", "%H:%M:%S.%Qns", quill::Timezone::GmtTime, false},
-                                            quill::ClockSourceType::System);
-    W.loggers.push_back(L);
-  }
-  {
-    std::ostringstream cfg;
-    cfg << "queue=" << static_cast<int>(SimFrontendOptions::queue_type) << " cap=" << kInitCap << "/" << kCap
-        << " tbuf=" << bo.transit_event_buffer_initial_capacity << " soft=" << bo.transit_events_soft_limit
-        << " hard=" << bo.transit_events_hard_limit << " grace_us=" << bo.log_timestamp_ordering_grace_period.count()
-        << " flush_ms=" << bo.sink_min_flush_interval.count() << " sinks=" << nsinks << " loggers=";
-    for (auto const& L : W.loggers) { cfg << "["; for (int s : L.sinks) cfg << s; cfg << "]"; }
-    r.line(cfg.str());
-  }
+  build_world(W, c, r);
 
   W.mbw = quill::Backend::acquire_manual_backend_worker();
-  W.mbw->init(bo);
+  W.mbw->init(W.bo);
   quill::detail::verif_yield = &sim_yield;
 
   // ---- the generated program ----
   unsigned n_ops = 1 + c.pick(120);
-  for (unsigned i = 0; i < n_ops && !r.failed; ++i)
+  for (unsigned i = 0; i < n_ops && !r.failed && !r.inconclusive; ++i)
   {
     ++W.op_counter;
-    size_t kind = c.weighted({5, 8, 2, 2, 2, 3, 1});
-    switch (kind)
-    {
-    case 0: op_poll(W, true); break;
-    case 1: op_log(W, pick_worker(W), false, 0); break;
-    case 2: op_start_thread(W); break;
-    case 3: op_tick(W); break;
-    case 4: op_exit_thread(W, pick_worker(W)); break;
-    case 5:
-      if (g_prop == "C06" || g_prop == "C08" || g_prop == "C03" || g_prop == "C09") op_flush(W, pick_worker(W), false, 0);
-      else op_log(W, pick_worker(W), false, 0);
-      break;
-    default: { int wi = pick_worker(W); if (wi >= 0) op_retry(W, wi); break; }
-    }
+    top_level_op(W, c);
   }
 
   // ---- drain and judge ----
-  bool drained = !r.failed && drain(W);
+  bool drained = !r.failed && !r.inconclusive && drain(W);
   if (drained)
   {
     // two more idle polls so that drop reports and reclamation had their chance
@@ -899,48 +486,15 @@ void run_case(Choices& c, Report& r)
     op_poll(W, false);
     op_poll(W, false);
     W.draining = false;
-    oracle_delivery(W);
+    if (is_prop("C18")) oracle_backtrace(W);
+    else oracle_delivery(W);
     if (!r.failed) oracle_flushes(W);
-    if (!r.failed && g_prop == "C08") oracle_drops(W);
-    if (!r.failed && g_prop == "C20") oracle_contexts(W);
+    if (!r.failed && is_prop("C08")) oracle_drops(W);
+    if (!r.failed && is_prop("C20")) oracle_contexts(W);
+    if (!r.failed && is_prop("C10")) oracle_notes(W);
+    if (!r.failed && is_prop("C17")) oracle_sinks(W);
   }
-
-  // ---- classification ----
-  r.line("ops: " + W.opslog);
-  {
-    std::ostringstream o;
-    o << "stmts=" << W.stmts.size() << " flushes=" << W.flushes.size() << " writes=" << count_writes(W) << " polls=" << W.polls
-      << " yields=" << W.yields[1] << "/" << W.yields[2] << "/" << W.yields[3] << "/" << W.yields[4] << "/" << W.yields[5]
-      << " bursts=" << W.bursts_at[1] << "/" << W.bursts_at[2] << "/" << W.bursts_at[3] << "/" << W.bursts_at[4] << "/" << W.bursts_at[5]
-      << " notes=" << W.notes.size();
-    r.line(o.str());
-  }
-  std::set<int> logged_threads;
-  long drops = 0, accepted = 0, delivered_after_drop = 0;
-  std::map<int, bool> dropped_before;
-  for (auto const& s : W.stmts)
-  {
-    if (s.call_done) logged_threads.insert(s.w);
-    if (s.call_done && !s.accepted && !s.threw) { ++drops; dropped_before[s.w] = true; }
-    if (s.accepted) { ++accepted; if (dropped_before[s.w]) ++delivered_after_drop; }
-  }
-  for (int p = 1; p <= 5; ++p) if (W.bursts_at[p]) r.label("burst_at_Y" + std::to_string(p));
-  if (W.lbl_exit_with_pending) r.label("thread_exited_with_unwritten_statements");
-  if (W.lbl_blocked) r.label("worker_blocked_at_least_once");
-  if (W.lbl_stall) r.label("stall_in_clock_read");
-  if (W.lbl_first_log_in_y1) r.label("first_log_of_a_thread_inside_Y1");
-  for (auto const& n : W.notes)
-  {
-    if (n.find("Allocated a new SPSC queue") != std::string::npos) r.label("queue_grew");
-    if (n.find("Dropped") != std::string::npos) r.label("drops_reported");
-  }
-  if (drops) r.label("statement_dropped");
-  bool flush_with_others_pending = false;
-  for (auto const& f : W.flushes) if (f.must_be_written.size() > 0) flush_with_others_pending = true;
-  if (g_prop == "C08") r.nontrivial = drops >= 1 && delivered_after_drop >= 1;
-  else if (g_prop == "C06") r.nontrivial = flush_with_others_pending && logged_threads.size() >= 2;
-  else if (g_prop == "C09") r.nontrivial = W.lbl_blocked;
-  else r.nontrivial = logged_threads.size() >= 2 && (W.lbl_exit_with_pending || W.lbl_blocked || W.bursts_at[2] || W.bursts_at[3] || W.bursts_at[4]);
+  classify(W, r);
 }
 
 bool probe_known_class(std::string const&, std::string&) { return false; }
